@@ -631,6 +631,25 @@ class StrAI:
 
     def call(self, e, env):
         f = e.func
+        if isinstance(f, ast.Name) and f.id == "map" and f.id not in env and len(e.args) == 2 and not e.keywords and isinstance(e.args[0], (ast.Name, ast.Lambda)):
+            # map(fn, xs) over a known sequence is the list of the calls
+            xs = self.ev(e.args[1], env)
+            if not isinstance(xs, (list, tuple, range)):
+                raise Undecided("map over shape")
+            out = []
+            for k, x in enumerate(xs):
+                tmp = f"<map{id(e)}_{k}>"
+                env2 = dict(env)
+                env2[tmp] = x
+                if isinstance(e.args[0], ast.Lambda):
+                    lam = e.args[0]
+                    if len(lam.args.args) != 1 or lam.args.defaults or lam.args.vararg or lam.args.kwarg or lam.args.kwonlyargs:
+                        raise Undecided("map lambda")
+                    env2[lam.args.args[0].arg] = x
+                    out.append(self.ev(lam.body, env2))
+                else:
+                    out.append(self.call(ast.copy_location(ast.Call(func=e.args[0], args=[ast.Name(id=tmp, ctx=ast.Load())], keywords=[]), e), env2))
+            return out
         args = [self.ev(a, env) for a in e.args]
         if e.keywords:
             raise Undecided("keyword arguments")
